@@ -61,11 +61,15 @@ func init() {
 					for l := 0; l <= 3; l++ {
 						out = append(out, cs("VH_C08_Traverse", n, slack, l))
 					}
+					if n >= 1 && slack == 0 {
+						out = append(out, cs("VH_C08_Traverse", n, slack, 2, 1)) // a nested Stack at position 0
+					}
 				}
 			}
 			for k := 0; k < 5; k++ {
 				out = append(out, cs("VH_C08_Ctor", k))
 			}
+			out = append(out, cs("VH_C08_WalkersAwkward"))
 			for i := range auto.Stack {
 				out = append(out, cs("VH_C08_StackValues", i, 0, 0, q(tier, 1, 2)), cs("VH_C08_StackValues", i, 0, 1, 1))
 				if tier == "thorough" {
@@ -95,14 +99,14 @@ func init() {
 			maxN, maxSlack, maxM := q(tier, 3, 5), q(tier, 1, 2), q(tier, 2, 3)
 			for n := 0; n <= maxN; n++ {
 				for slack := 0; slack <= maxSlack; slack++ {
-					for op := 0; op < 9; op++ {
+					for op := 0; op < 10; op++ {
 						if op == 0 {
 							for m := 0; m <= maxM; m++ {
 								out = append(out, cs("VH_C01_Step", n, slack, m, op))
 							}
 						} else {
 							out = append(out, cs("VH_C01_Step", n, slack, 0, op))
-							if slack == 0 && n >= 2 && op != 8 {
+							if slack == 0 && n >= 2 && op < 8 {
 								// duplicate and uncomparable element values
 								out = append(out, cs("VH_C01_Step", n, slack, 0, op, 1))
 							}
@@ -207,6 +211,9 @@ func init() {
 				if w == 2 {
 					out = append(out, cs("VH_C18_Text", w, 1, 1)) // then set by rune, unset by "", NUL or nil
 				}
+				if w == 3 {
+					out = append(out, cs("VH_C18_Text", w, 1, 1)) // the symbol given in pieces
+				}
 			}
 			out = append(out, cs("VH_C18_FifoAux"))
 			// the read-only switch is invisible to every observer
@@ -269,7 +276,7 @@ func init() {
 			var out []symx.CaseSpec
 			for ns := 0; ns <= q(tier, 3, 6); ns++ {
 				for nd := 0; nd <= q(tier, 3, 5); nd++ {
-					for v := 0; v <= 9; v++ {
+					for v := 0; v <= 11; v++ {
 						if v >= 3 && nd > 1 {
 							continue
 						}
@@ -339,7 +346,7 @@ func init() {
 			// the read-only instance nested below a writable parent whose methods are called
 			for i, n := range auto.Stack {
 				if isMut("Stack."+n) || tier == "thorough" {
-					for nest := 0; nest <= 2; nest++ {
+					for nest := 0; nest <= 4; nest++ {
 						out = append(out, cs("VH_C09_NestedUnderParent", i, 0, nest))
 					}
 					if tier == "thorough" {
@@ -402,6 +409,7 @@ func init() {
 					out = append(out, cs("VH_C11_Aux", i))
 				}
 			}
+			out = append(out, cs("VH_C11_TraversePath", 0), cs("VH_C11_TraversePath", 3))
 			return out
 		},
 		boundsText: map[string]string{
@@ -479,6 +487,9 @@ func init() {
 				for m := 0; m <= q(tier, 3, 4); m++ {
 					for capMode := 0; capMode <= 1; capMode++ {
 						out = append(out, cs("VH_C14_Push", n, m, capMode))
+						if capMode == 0 && m >= 1 {
+							out = append(out, cs("VH_C14_Push", n, m, capMode, 1)) // offered through Transfer
+						}
 					}
 				}
 			}
@@ -580,10 +591,10 @@ func init() {
 			out = append(out, cs("VH_C20", 3, 2, 0, 1, 1, 0, 3, 0, 1, 1, 0, 3, 0, 1, 1, 0, 0))
 			out = append(out, cs("VH_C20", 3, 2, 0, 1, 1, 0, 5, 0, 1, 1, 0, 2))
 			out = append(out, cs("VH_C20", 2, 2, 3, 1, 1, 0, 3, 0, 1, 0, 0, 0))
-			for k := 0; k <= 11; k++ {
+			for k := 0; k <= 12; k++ {
 				out = append(out, cs("VH_C20_Named", k))
 			}
-			n := q(tier, 120, 1500)
+			n := q(tier, 80, 500)
 			r := uint64(seed)*2654435761 + 20
 			for i := 0; i < n; i++ {
 				var digits []int
@@ -600,8 +611,8 @@ func init() {
 			return out
 		},
 		boundsText: map[string]string{
-			"quick":    "8 hand-built shapes (folded / symbol-bearing NOT wrappers, mutex-enabled envelopes at every slot, chains; parenthetical bits symbolic) + 3 hand-picked + 120 seeded trees of depth<=3, width<=3 (single-child chains favoured) over AND/OR/NOT/LIST with text/int leaves, Conditions holding text or Stacks, empty stacks, mutex-enabled nodes, case-folded and symbol-bearing nodes; the parenthetical bit of every Stack and Condition and the index-option bits of every Stack are solver variables",
-			"thorough": "3 hand-picked + 1500 seeded trees of depth<=4",
+			"quick":    "13 hand-built shapes (folded / symbol-bearing NOT wrappers, mutex-enabled envelopes at every slot, chains, typed nil children, read-only mutex-enabled nested nodes, zero instances in the first slot, unusable receivers; parenthetical bits symbolic; a second Reveal) + 3 hand-picked + 80 seeded trees of depth<=3, width<=3 (single-child chains favoured) over AND/OR/NOT/LIST with text/int leaves, Conditions holding text or Stacks, empty stacks, mutex-enabled nodes, case-folded and symbol-bearing nodes, nested stacks held natively / as alias / as pointer; the parenthetical bit of every Stack and Condition and the index-option and read-only bits of every Stack are solver variables",
+			"thorough": "3 hand-picked + 500 seeded trees of depth<=4",
 		},
 		outside: "trees outside the sampled shapes; aliases as nodes (C12)",
 		assumptions: []string{"deadlock = sync.Mutex.Lock on a mutex the single engine thread already holds (engine lock table)"},
@@ -677,7 +688,7 @@ func init() {
 					}
 				}
 			}
-			for k := 0; k <= 5; k++ {
+			for k := 0; k <= 6; k++ {
 				out = append(out, cs("VH_C05_Hidden", k))
 			}
 			n := q(tier, 200, 4000)
@@ -789,6 +800,7 @@ func init() {
 			}
 			// a second SetMutex among the operations; an accept-all push policy installed
 			out = append(out, cs("VH_C10", 1, 2, 1, 9, 0, 0), cs("VH_C10", 1, 2, 1, 2, 0, 0, 1), cs("VH_C10", 1, 2, 1, 2, 2, 1, 1))
+			out = append(out, cs("VH_C10", 1, 2, 1, 2, 0, 0, 2), cs("VH_C10", 1, 2, 1, 2, 2, 0, 2)) // a rejecting validity policy
 			// whole-list operations against the ones that change the length
 			out = append(out, cs("VH_C10", 2, 2, 1, 10, 0, 0), cs("VH_C10", 3, 2, 1, 10, 0, 1))
 			if tier == "thorough" {
